@@ -539,6 +539,16 @@ func (s *Sim) reconfigure(client string, a Action) {
 			delete(rcs.tainted, procID)
 		}
 	}()
+	tdGen := 0
+	if ps := w.procs[procID]; ps != nil && strings.Contains(a.Note, "tdfail") && !overlapped {
+		if tdGen = ps.liveGen(); tdGen > 0 {
+			ps.tdFail[tdGen] = true
+		}
+	}
+	gensBefore := 0
+	if ps := w.procs[procID]; ps != nil {
+		gensBefore = ps.gens
+	}
 	err := s.call(client, "reconfigure", procID+" rev="+rev+" "+a.Note, func(st *Stack) error {
 		inst, err := st.proc.Get(base, procID)
 		if err != nil {
@@ -561,6 +571,17 @@ func (s *Sim) reconfigure(client string, a Action) {
 	})
 	if overlapped || rcs.tainted[procID] {
 		openFail = false
+	}
+	if ps := w.procs[procID]; ps != nil {
+		if tdGen > 0 && ps.torndown[tdGen] == 0 {
+			delete(ps.tdFail, tdGen) // not replaced after all: it goes on and is torn down normally later
+		}
+		if err != nil && err != errIncarnationDied && !overlapped && !rcs.tainted[procID] {
+			// the caller was told the request failed: nothing this request built may be in use
+			for g := gensBefore + 1; g <= ps.gens; g++ {
+				rcs.refusedGens[fmt.Sprintf("%s|%d", procID, g)] = firstLine(err.Error())
+			}
+		}
 	}
 	w.or.onReconfigureResult(w, procID, rev, openFail, cancelled, applied, err)
 	if applied {
